@@ -293,7 +293,8 @@ func (w *worker) runPath(it *WorkItem) {
 	}
 	x.memo = map[*term.T]*term.T{}
 	w.ctx.Rep = x.rep
-	defer func() { w.ctx.Rep = nil }()
+	w.ctx.Ranges = map[*term.T][2]int64{}
+	defer func() { w.ctx.Rep = nil; w.ctx.Ranges = nil }()
 	outcome := "ok"
 	detail := ""
 	func() {
@@ -440,6 +441,43 @@ func (x *Path) learn(m *Machine, c *term.T, val bool) {
 		return
 	}
 	x.rep[c] = C.Bool(val)
+	// bounds against constants
+	if (c.Op == term.OpSlt || c.Op == term.OpSle) && (c.Args[0].IsConst() != c.Args[1].IsConst()) {
+		const minI, maxI = -1 << 63, 1<<63 - 1
+		a, b := c.Args[0], c.Args[1]
+		strict := c.Op == term.OpSlt
+		if b.IsConst() { // a < k / a <= k
+			k := b.Int()
+			if val {
+				if strict && k > minI {
+					C.NoteRange(a, minI, k-1)
+				} else if !strict {
+					C.NoteRange(a, minI, k)
+				}
+			} else {
+				if strict {
+					C.NoteRange(a, k, maxI)
+				} else if k < maxI {
+					C.NoteRange(a, k+1, maxI)
+				}
+			}
+		} else { // k < b / k <= b
+			k := a.Int()
+			if val {
+				if strict && k < maxI {
+					C.NoteRange(b, k+1, maxI)
+				} else if !strict {
+					C.NoteRange(b, k, maxI)
+				}
+			} else {
+				if strict {
+					C.NoteRange(b, minI, k)
+				} else if k > minI {
+					C.NoteRange(b, minI, k-1)
+				}
+			}
+		}
+	}
 	switch {
 	case c.Op == term.OpAnd && val:
 		x.learn(m, c.Args[0], true)
